@@ -19,6 +19,10 @@ MUST_BE_FATAL = ['non-existant target state', 'invalid target state', 'has no de
                  'Target states cause illegal configuration', 'references non-child state', 'unknown datamodel']
 
 
+# conditions the recommendation answers with an error event at run time: a chart that has them is conformant and runs
+MUST_NOT_BE_FATAL = {'Send to unknown IO Processor': 'SCXML 6.2.4: an unsupported send type raises error.execution (W3C IRP test 199 is such a document and passes)'}
+
+
 def string_prefix(fb, f, arg, param_lid):
     """literal text concatenated in front of the parameter inside a sink argument (None if the parameter is not in it)"""
     lits = []
@@ -87,7 +91,7 @@ def context_of_method(fb, f, depth=0):
 def run(rep, tier):
     rep.rule('R19.1', 'vocabulary agreement: every executable-content element the validator accepts is dispatched by BasicContentExecutor::process; the state-like element sets of validator and engines agree')
     rep.rule('R19.2', 'expression-context agreement: attributes the executor evaluates as expressions (cond, expr, array) are syntax-checked in expression context in every in-tree data model whose parser distinguishes statements from expressions; item/index/location are checked as assignment targets')
-    rep.rule('R19.3', 'severity table: issues whose condition makes execution dereference a missing state or fail structurally at initialisation are raised as FATAL')
+    rep.rule('R19.3', 'severity table: issues whose condition makes execution dereference a missing state or fail structurally at initialisation are raised as FATAL; conditions the recommendation answers with an error event at run time are not')
     rep.rule('R19.4', 'validator robustness: front()/back() on lists obtained from the DOM are guarded by a size/emptiness test in InterpreterIssue.cpp')
     rep.assume('soundness/completeness of the verdict for all documents is not decided')
     fb = facts.FactBase(TUS)
@@ -210,12 +214,20 @@ def run(rep, tier):
         for m, sv, n in hits:
             rep.check(sv == 'USCXML_ISSUE_FATAL', 'R19.3', pat, locstr(n), '"%s" is raised as %s' % (m[:70], sv))
 
+    for pat, why in MUST_NOT_BE_FATAL.items():
+        hits = [(m, sv, n) for m, sv, n in issues if pat in m]
+        if not hits:
+            raise AnalysisBroken('issue message containing "%s" not found' % pat)
+        for m, sv, n in hits:
+            rep.check(sv != 'USCXML_ISSUE_FATAL', 'R19.3', 'not fatal|' + pat, locstr(n), '"%s" is raised as %s (%s)' % (m[:60], sv, why))
+
     # ---- R19.13 structural preconditions of the engines that the validator must judge (closed table; one issue each)
     rep.rule('R19.13', 'every structural precondition the engines rely on has a fatal issue: an <initial> / history default transition has a target, an initial attribute is not empty, a history default transition does not target a history, ids of an invoked inline machine are judged per machine')
     REQUIRED = [('initial transition without target', r'[Ii]nitial transition.*(no|without|requires|must have).*target'),
                 ('history default transition without target', r'Transition in .*history.*has no target'),
                 ('empty initial attribute', r'[Ii]nitial attribute.*(empty|no state)'),
-                ('history default transition targets a history', r'history.*target.*history|default.*history.*history')]
+                ('history default transition targets a history', r'history.*target.*history|default.*history.*history'),
+                ('state-like element outside the state hierarchy (its id resolves for the validator, the engines find no such state)', r'can be no child of')]
     for what, pat in REQUIRED:
         hits = [(m, sv, n) for m, sv, n in issues if re.search(pat, m)]
         rep.check(bool(hits) and all(sv == 'USCXML_ISSUE_FATAL' for _, sv, _ in hits), 'R19.13', what, val.where(), 'the validator %s for: %s' % (
@@ -233,6 +245,21 @@ def run(rep, tier):
         y['k'] == 'DeclRefExpr' and y.get('ref', {}).get('name') == 'seenStates' for y in sub(a_)) for x in sub(a_['c'][0]))
     rep.check(per_machine or seen_filtered, 'R19.13', 'ids per machine', asm.where() if asm else val.where(), 'state ids of an inline invoked <scxml> %s' % (
         'are kept apart from the parent machine' if per_machine or seen_filtered else 'are collected into the parent\'s id table: a valid child that reuses an id draws "Duplicate state" fatals, and a parent transition that targets an id existing only in the child passes'))
+
+    # ---- R19.15 the validator judges the elements the engines see
+    rep.rule('R19.15', 'validator and engines agree on what belongs to the chart: the engines look elements up by the exact name "prefix of the root + local name"; the validator collects an element under the same test (equality of the tag name, same namespace), not under "the tag starts with the prefix" (vacuous for an empty prefix: payload XML in other namespaces is judged as SCXML, SCXML elements under another prefix pass validation and are invisible to the engines), and an element of the root\'s namespace that fails the test draws a fatal issue')
+    if asm is None:
+        raise AnalysisBroken('assembleNodeSets not found')
+    prefix_tests = [x for x in asm.walk() if x['k'] in ('BinaryOperator', 'CXXOperatorCallExpr') and x.get('op') == '==' and any(
+        y.get('callee', {}).get('q', '').split('::')[-1] == 'find' for y in sub(x)) and any(tab.const_of(y) == 0 for y in (x['c'][-2:] if x.get('c') else []))]
+    exact = [x for x in asm.walk() if x['k'] in ('BinaryOperator', 'CXXOperatorCallExpr') and x.get('op') == '==' and any(
+        y.get('callee', {}).get('q', '').split('::')[-1] == 'getTagName' for y in sub(x)) and any(y.get('callee', {}).get('q', '').split('::')[-1] == 'getLocalName' for y in sub(x))]
+    ns = any(y.get('callee', {}).get('q', '').split('::')[-1] == 'getNamespaceURI' for y in asm.walk())
+    rep.check(bool(exact) and not prefix_tests, 'R19.15', 'assembleNodeSets|membership', locstr((prefix_tests or exact or [asm.d['body']])[0]), 'an element is collected for validation %s' % (
+        'when its tag is exactly prefix + local name%s' % (' and it is in the namespace of the root' if ns else '') if exact and not prefix_tests else
+        'when its tag STARTS WITH the prefix of the root (`find(prefix) == 0`): with an un-prefixed root every element of every namespace is judged as SCXML (false fatals for payload), and <sc:state> under an un-prefixed root passes validation although the engines never see it (NULL state in the completion, SIGSEGV)'))
+    other = any(re.search(r'another prefix|other prefix|different prefix', m) and sv == 'USCXML_ISSUE_FATAL' for m, sv, n in issues)
+    rep.check(other, 'R19.15', 'forInterpreter|other prefix', val.where(), 'an element of the root\'s namespace written with another prefix %s' % ('draws a fatal issue' if other else 'draws NO issue'))
 
     # ---- R19.14 validation cost: no check enumerates all configurations of the chart
     rep.rule('R19.14', 'validation terminates on every document within memory: no check of the validator enumerates all legal configurations of the chart (exponential in the number of parallel regions)')
